@@ -431,7 +431,24 @@ def build(run):
                 return undecided(f"{bname}: the two builds are not equal (corpus artefact)")
             if _sig(f1) != _sig(f2):
                 return violated(f"equal forms '{bname}' have different signatures", replay={"builder": bname}, reproduced=True)
-        return bounded_ok(n, f"{n} corpus forms, each built twice", sample="equal forms have equal signatures")
+        # equal forms that SPELL an integer subdomain id differently (Python int / numpy integers, as read from a mesh tag array)
+        import numpy as np
+        from ufl import Coefficient, FunctionSpace, Measure
+        for spell_a, spell_b, what in ((1, np.int64(1), "dx(1) vs dx(numpy.int64(1))"), ((1, 2), (np.int32(1), np.int64(2)), "dx((1, 2)) vs dx((numpy.int32(1), numpy.int64(2)))"),
+                                       (0, np.int64(0), "ds(0) vs ds(numpy.int64(0))"), (7, np.uint8(7), "dx(7) vs dx(numpy.uint8(7))")):
+            forms = []
+            for sp in (spell_a, spell_b):
+                S.set_counters({k: 40 for k in S.COUNTER_FAMILIES})
+                m = S.new_mesh()
+                f_ = Coefficient(FunctionSpace(m, S.L(ufl.triangle, 1)))
+                forms.append(f_ * f_ * Measure("ds" if "ds" in what else "dx", domain=m, subdomain_id=sp))
+            n += 1
+            if not forms[0].equals(forms[1]):
+                return undecided(f"{what}: the two spellings do not give equal forms")
+            if _sig(forms[0]) != _sig(forms[1]):
+                return violated(f"the equal forms f*f*{what.split(' vs ')[0]} and f*f*{what.split(' vs ')[1]} (Form.equals is True) have different signatures",
+                                replay={"spellings": what}, reproduced=True)
+        return bounded_ok(n, f"{n} corpus forms, each built twice; integer subdomain ids spelled as Python ints and as numpy integers", sample="equal forms have equal signatures")
     run.add("equal-forms-equal-signatures", equal_forms, kind="bounded")
 
     # ------------------------------------------------------------------ (g) the signature is a function of the form alone: objects shared with forms whose
